@@ -90,7 +90,10 @@ def assert_fixpoints() -> None:
 
 
 def jobs(maxlen: int, parts: int = 2, entry_len: int = 2) -> list:
-    out = []
+    from mc import roundtrip as RT  # noqa: PLC0415
+
+    out = [("R", "S", kind, cls, pi, 0, 0, 0) for kind in RT.SCALE_KINDS for cls in DR.CLASSES
+           for pi in range(len(RT.SCALE_PRESETS))]
     for scope, sc in R_SCOPES.items():
         L = max(maxlen, sc.get("maxlen", 0))
         n = AL.n_sequences(6, L)
@@ -123,7 +126,9 @@ def entry_configs(cls: str) -> list:
 def expected_cases(js: list) -> int:
     tot = 0
     for _, kind, scope, cls, pi, L, lo, hi in js:
-        if kind == "A":
+        if kind == "S":
+            tot += 3
+        elif kind == "A":
             tot += (hi - lo) * (len(FRAME_SIZES) * len(MODES) + (1 if cls != "triple" else 0))
         elif kind == "C":
             tot += hi - lo
@@ -137,7 +142,37 @@ def make_opts(cls: str, preset, fs: int, lkind: str, delimited: bool):
     return DR.make_options(cls, preset, fs, delimited, lt, generalized=False, rdf_star=False)
 
 
+def run_scale(job, judge) -> dict:
+    from mc import roundtrip as RT  # noqa: PLC0415
+
+    _, _, kind, cls, pi, _, _, _ = job
+    DR.ensure_rdflib_plugin()
+    acc = pool.Acc()
+    preset = RT.SCALE_PRESETS[pi]
+    seq = RT.scale_seq(kind, 3 if cls == "triple" else 4)
+    for fs, lk, dl in ((250, "flat", True), (127, "flat", True), (250, "flat", False)):
+        acc.evals += 1
+        if not all(AL.fits(st, preset) for st in seq):
+            acc.counters["out_of_domain"] += 1
+            continue
+        acc.nontrivial += 1
+        case = {"api": "rdflib", "family": "scale", "scope": kind, "cls": cls,
+                "preset": list(preset), "frame_size": fs, "logical": lk, "delimited": dl,
+                "writer": "graph_serialize_stream", "seq": []}
+        try:
+            data = DR.r_write(seq, cls, make_opts(cls, preset, fs, lk, dl), "graph_serialize_stream")
+        except Exception as e:  # noqa: BLE001
+            judge(case, seq, None, e, acc)
+            continue
+        judge(case, seq, data, None, acc)
+    acc.sample({"api": "rdflib", "family": "scale", "kind": kind, "cls": cls, "preset": preset},
+               cap=1)
+    return acc.out()
+
+
 def run_job(job, judge) -> dict:
+    if job[1] == "S":
+        return run_scale(job, judge)
     _, kind, scope, cls, pi, L, lo, hi = job
     DR.ensure_rdflib_plugin()
     acc = pool.Acc()
@@ -182,8 +217,13 @@ def run_job(job, judge) -> dict:
 def replay_case(case: dict, judge) -> list:
     DR.ensure_rdflib_plugin()
     acc = pool.Acc()
-    alpha = alphabet(case["scope"], case["cls"])
-    seq = [alpha[i] for i in case["seq"]]
+    if case.get("family") == "scale":
+        from mc import roundtrip as RT  # noqa: PLC0415
+
+        seq = RT.scale_seq(case["scope"], 3 if case["cls"] == "triple" else 4)
+    else:
+        alpha = alphabet(case["scope"], case["cls"])
+        seq = [alpha[i] for i in case["seq"]]
     try:
         opts = make_opts(case["cls"], tuple(case["preset"]), case["frame_size"], case["logical"],
                          case["delimited"])
